@@ -1,4 +1,63 @@
-From Coq Require Import ZArith.
-From Tulz Require Import SubjectModel.
-Theorem placeholder_C10 : 1 = 1. Proof. reflexivity. Qed.
-Print Assumptions placeholder_C10.
+(* Properties_C10.v — Subject tolerates callbacks that change it during notify.
+   Only statements, each closed by [exact <lemma of SubjectProofs>], and Print Assumptions.
+
+   SubjectModel.v is the pointer-level transcription of Subject.h (observer heap, cached raw
+   pointers in notify(), destruction, call stack); SubjectSpec.v is the specification on
+   plain subscription records, in which by construction a subscription removed before its
+   turn is skipped, a subscription added during a round is not part of it, and the round
+   continues for every other member of the snapshot. Callbacks are arbitrary scripts of
+   subscribe / unsubscribe / mute / unmute / invalidate (any target, itself included) /
+   notify actions; the nesting of notifications is bounded by the fuel. *)
+From Coq Require Import List ZArith Bool Lia.
+From Tulz Require Import Common SubjectModel SubjectSpec SubjectProofs.
+Import ListNotations.
+Local Open Scope Z_scope.
+
+(* THE property: for every script table, every fuel, every number of Subjects and every
+   program of operations, the pointer-level model produces exactly the trace of the
+   specification — the same invocations (observer, argument) in the same order, the same
+   handle validity / mute flags, the same hasSubscriptions(), the same exceptions — and in
+   particular fails only where the specification fails (fuel exhausted). *)
+Theorem C10_refines_spec : forall scripts fuel nsubj ops,
+  c_trace true scripts fuel (world0 nsubj) ops = a_trace scripts fuel (aworld0 nsubj) ops.
+Proof. exact subject_refines_spec. Qed.
+Print Assumptions C10_refines_spec.
+
+(* memory safety: no operation ever calls, queries or destroys an observer object that is
+   already destroyed or whose callback is executing; the only possible failure is running
+   out of fuel (nesting deeper than the bound) *)
+Theorem C10_memory_safe : forall scripts fuel nsubj ops,
+  Forall (fun x => x = Rejected \/ (exists v, x = Done v) \/ x = Failed OutOfFuel)
+         (c_trace true scripts fuel (world0 nsubj) ops).
+Proof. exact subject_memory_safe. Qed.
+Print Assumptions C10_memory_safe.
+
+(* The pinned upstream code (observers destroyed at once, observer->isValid() read after the
+   call) is refuted: an observer whose callback unsubscribes its own subscription. *)
+Theorem C10_upstream_refuted : exists scripts ops,
+  In (Failed UseAfterFree) (c_trace false scripts 6 (world0 1) ops).
+Proof. exact upstream_self_unsubscribe. Qed.
+Print Assumptions C10_upstream_refuted.
+
+(* the behaviours the property names, on the specification (and hence on the model):
+   observer 0 unsubscribes observer 1 before its turn (1 is skipped, 2 still runs);
+   observer 0 subscribes a new observer during the round (first invoked in the next round);
+   observer 0 unsubscribes itself and notifies again (nested round without it) *)
+Example C10_skipped_when_removed :
+  map (fun x => match x with Done v => v_calls v | _ => [] end)
+      (a_trace [[AUnsub 1]; []] 6 (aworld0 1)
+         [OAct (ASub 0 0); OAct (ASub 0 1); OAct (ASub 0 1); OAct (ANotify 0 7)])
+  = [[]; []; []; [(0%nat, 7); (2%nat, 7)]].
+Proof. vm_compute. reflexivity. Qed.
+Example C10_added_runs_next_round :
+  map (fun x => match x with Done v => v_calls v | _ => [] end)
+      (a_trace [[ASub 0 1]; []] 6 (aworld0 1) [OAct (ASub 0 0); OAct (ANotify 0 7); OAct (ANotify 0 8)])
+  = [[]; [(0%nat, 7)]; [(0%nat, 8); (1%nat, 8)]].
+Proof. vm_compute. reflexivity. Qed.
+Example C10_self_unsubscribe_and_renotify :
+  c_trace true [[AUnsub 0; ANotify 0 9]; []] 6 (world0 1) [OAct (ASub 0 0); OAct (ASub 0 1); OAct (ANotify 0 7)]
+  = a_trace [[AUnsub 0; ANotify 0 9]; []] 6 (aworld0 1) [OAct (ASub 0 0); OAct (ASub 0 1); OAct (ANotify 0 7)]
+  /\ map (fun x => match x with Done v => v_calls v | _ => [] end)
+      (a_trace [[AUnsub 0; ANotify 0 9]; []] 6 (aworld0 1) [OAct (ASub 0 0); OAct (ASub 0 1); OAct (ANotify 0 7)])
+  = [[]; []; [(0%nat, 7); (1%nat, 9); (1%nat, 7)]].
+Proof. vm_compute. split; reflexivity. Qed.
